@@ -260,22 +260,14 @@ func truncate(s string, n int) string {
 // explorer: generated files that range over a map are rewritten (range m ->
 // range vs.MapKeys(m)) and added to a copy of the overlay.
 func (g *genSet) mapRangeOverlay(overlay, build string) (string, error) {
+	// Every generated package goes through the rewriter: map ranges become
+	// decisions of the explorer, and should a template ever introduce
+	// channels, goroutines, sync or context observations into generated code,
+	// those come under the controlled scheduler too instead of blocking
+	// natively.
 	var pkgs []string
-	seen := map[string]bool{}
-	for _, p := range g.progs {
-		if p.Par == nil {
-			continue
-		}
-		hasMap := false
-		for _, it := range p.Par.Items {
-			if it.Kind == "map" {
-				hasMap = true
-			}
-		}
-		if hasMap && !seen[g.pkgOf[p.ID]] {
-			seen[g.pkgOf[p.ID]] = true
-			pkgs = append(pkgs, "./"+g.pkgOf[p.ID])
-		}
+	for _, pk := range g.pkgs() {
+		pkgs = append(pkgs, "./"+pk)
 	}
 	if len(pkgs) == 0 {
 		return overlay, nil
